@@ -62,7 +62,8 @@ func ruleTabPriority(c *Ctx, r *R) {
 	}
 	// the table is whatever map the comparator looks the node kinds up in (a local literal or a package-level table)
 	var cl *ast.CompositeLit
-	ast.Inspect(fd.Body, func(n ast.Node) bool {
+	for _, hfd := range c.withHelpers(fd) {
+	ast.Inspect(hfd.Body, func(n ast.Node) bool {
 		ix, ok := n.(*ast.IndexExpr)
 		if !ok || cl != nil {
 			return true
@@ -80,6 +81,7 @@ func ruleTabPriority(c *Ctx, r *R) {
 		}
 		return true
 	})
+	}
 	if cl == nil {
 		r.undecided("priority", c.Pos(fd), "the priority table the comparator indexes by node kind was not found")
 		return
@@ -150,13 +152,23 @@ func ruleTabPriority(c *Ctx, r *R) {
 			}
 		}
 		// a rank function of the element instead of the bare table lookup: rank(x[i]) > rank(x[j])
-		if !good && ret.Op == "bin" && ret.Name == ">" && len(ret.Args) == 2 && ret.Args[0].Op == "call" && ret.Args[1].Op == "call" && ret.Args[0].Name == ret.Args[1].Name && strings.HasPrefix(ret.Args[0].Name, "var.") &&
+		if !good && ret.Op == "bin" && ret.Name == ">" && len(ret.Args) == 2 && ret.Args[0].Op == "call" && ret.Args[1].Op == "call" && ret.Args[0].Name == ret.Args[1].Name &&
 			len(ret.Args[0].Args) == 1 && len(ret.Args[1].Args) == 1 &&
 			ret.Args[0].Args[0].Eq(tIndex(args[0], tVar(nil, "I"))) && ret.Args[1].Args[0].Eq(tIndex(args[0], tVar(nil, "J"))) {
-			if rfl := c.localFuncLit(fd, strings.TrimPrefix(ret.Args[0].Name, "var.")); rfl != nil && len(rfl.Type.Params.List) == 1 && len(rfl.Type.Params.List[0].Names) == 1 {
+			var rps []*State
+			haveRank := false
+			if rfl := c.localFuncLit(fd, strings.TrimPrefix(ret.Args[0].Name, "var.")); strings.HasPrefix(ret.Args[0].Name, "var.") && rfl != nil && len(rfl.Type.Params.List) == 1 && len(rfl.Type.Params.List[0].Names) == 1 {
 				rin := newInterp(c)
-				rin.NoLin = false
-				rps := rin.ExecLit(rfl, st.Clone(), map[string]*T{rfl.Type.Params.List[0].Names[0].Name: tVar(nil, "E")})
+				rps = rin.ExecLit(rfl, st.Clone(), map[string]*T{rfl.Type.Params.List[0].Names[0].Name: tVar(nil, "E")})
+				haveRank = true
+			} else if hfd := c.Func(ret.Args[0].Name); hfd != nil && hfd.Body != nil && len(hfd.Type.Params.List) == 1 && len(hfd.Type.Params.List[0].Names) == 1 {
+				if ho := c.Info.Defs[hfd.Name]; ho != nil && c.isNewHelper(ho) {
+					rin := newInterp(c)
+					rps = rin.ExecFunc(hfd, map[string]*T{hfd.Type.Params.List[0].Names[0].Name: tVar(nil, "E")})
+					haveRank = true
+				}
+			}
+			if haveRank {
 				okAll := len(rps) > 0
 				for _, rp := range rps {
 					if os.Getenv("GC_DEBUG") != "" {
@@ -288,17 +300,54 @@ func ruleJoinFiles(c *Ctx, r *R) {
 		r.undecided("joinFiles", "-", "joinFiles not found")
 		return
 	}
-	// every append of a file's Tokens: either whole (first file only) or [1:]
-	n := 0
+	if len(fd.Type.Params.List) == 0 || len(fd.Type.Params.List[0].Names) == 0 {
+		r.undecided("joinFiles", c.Pos(fd), "no files parameter")
+		return
+	}
+	files := fd.Type.Params.List[0].Names[0].Name
+	// Every append of a file's Tokens to the joined tree is judged: a whole token list may be
+	// appended only for the first file (files[0] itself, or under i == 0 in a loop over files);
+	// every other file contributes Tokens[1:] (its package clause dropped).  The later files are
+	// reached by a loop over files (with i != 0) or over files[1:].
+	firstIs := func(e ast.Expr) bool {
+		// e denotes files[0] (directly or through a variable defined as files[0])
+		e = unparen(e)
+		if ix, ok := e.(*ast.IndexExpr); ok && nosp(c.Src(ix.X)) == files {
+			if k, ok := c.ConstInt(ix.Index); ok && k == 0 {
+				return true
+			}
+		}
+		if id, ok := e.(*ast.Ident); ok {
+			if def := c.singleDef(id); def != nil {
+				if ix, ok := unparen(def).(*ast.IndexExpr); ok && nosp(c.Src(ix.X)) == files {
+					if k, ok := c.ConstInt(ix.Index); ok && k == 0 {
+						return true
+					}
+				}
+			}
+		}
+		return false
+	}
+	nFirst, nLater := 0, 0
 	ast.Inspect(fd.Body, func(m ast.Node) bool {
 		call, ok := m.(*ast.CallExpr)
 		if !ok || c.CalleeName(call) != "builtin.append" || !call.Ellipsis.IsValid() {
 			return true
 		}
 		arg := unparen(call.Args[len(call.Args)-1])
+		// enclosing loop over the files, if any
+		var loop *ast.RangeStmt
+		for p := c.Parent(call); p != nil && p != ast.Node(fd); p = c.Parent(p) {
+			if rs, ok := p.(*ast.RangeStmt); ok && loop == nil {
+				loop = rs
+			}
+		}
 		switch a := arg.(type) {
 		case *ast.SliceExpr:
-			n++
+			if sel, ok := unparen(a.X).(*ast.SelectorExpr); !ok || sel.Sel.Name != "Tokens" {
+				return true
+			}
+			nLater++
 			lo, okc := int64(0), true
 			if a.Low != nil {
 				lo, okc = c.ConstInt(a.Low)
@@ -306,25 +355,40 @@ func ruleJoinFiles(c *Ctx, r *R) {
 			r.check(okc && lo == 1 && a.High == nil, "later-files", c.Pos(call), "appends t.Tokens[1:]",
 				"joinFiles does not drop exactly the package clause of later files ("+c.Src(arg)+")")
 		case *ast.SelectorExpr:
-			n++
-			// whole file: must be guarded by the first-file test
-			guarded := false
-			for p := c.Parent(call); p != nil && p != ast.Node(fd); p = c.Parent(p) {
-				if ifs, ok := p.(*ast.IfStmt); ok {
-					if be, ok := unparen(ifs.Cond).(*ast.BinaryExpr); ok && be.Op.String() == "==" {
-						if v, ok := c.ConstInt(be.Y); ok && v == 0 {
-							guarded = true
+			if a.Sel.Name != "Tokens" {
+				return true
+			}
+			nFirst++
+			ok := false
+			if firstIs(a.X) {
+				ok = true // the first file, named explicitly
+			}
+			// or: inside a loop over files, guarded by the first-file test
+			for p := c.Parent(call); p != nil && p != ast.Node(fd) && !ok; p = c.Parent(p) {
+				if ifs, isIf := p.(*ast.IfStmt); isIf {
+					if be, isB := unparen(ifs.Cond).(*ast.BinaryExpr); isB && be.Op.String() == "==" {
+						if v, isC := c.ConstInt(be.Y); isC && v == 0 {
+							ok = true
 						}
 					}
 				}
 			}
-			r.check(guarded, "first-file", c.Pos(call), "whole token list only for i == 0",
-				"joinFiles appends a whole file (with its package clause) outside the i == 0 case")
+			r.check(ok, "first-file", c.Pos(call), "a whole token list is appended only for the first file",
+				"joinFiles appends a whole file (with its package clause) that is not the first file")
+		}
+		// the loop that reaches the later files must not start again at the first file unguarded
+		if loop != nil {
+			if _, isSlice := arg.(*ast.SliceExpr); isSlice {
+				over := nosp(c.Src(loop.X))
+				if over != files && over != files+"[1:]" {
+					r.fail("later-files loop", c.Pos(loop), "joinFiles takes the later files from "+c.Src(loop.X)+", not from the files after the first")
+				}
+			}
 		}
 		return true
 	})
-	if n < 2 {
-		r.undecided("joinFiles", c.Pos(fd), "expected two append sites (first file, later files)")
+	if nFirst < 1 || nLater < 1 {
+		r.undecided("joinFiles", c.Pos(fd), "expected an append of the first file's tokens and an append of later files' tokens")
 	}
 	_ = types.Typ
 }
